@@ -634,6 +634,10 @@ namespace occa {
       while (!inputIsEmpty()) {
         token_t *token = NULL;
         (*this) >> token;
+        if (!token) {
+          // The input ended inside the directive (e.g. [#if defined (])
+          break;
+        }
 
         if (token->type() & tokenType::newline) {
           incrementNewline();
